@@ -7,6 +7,7 @@ import Mathy.Model.Rules
 import Mathy.Model.Parser
 import Mathy.Model.Print
 import Mathy.Model.ParserObj
+import Mathy.Model.Tree
 namespace Mathy
 
 def Bop.name : Bop → String
@@ -147,5 +148,36 @@ def POut.toWire : POut → String
   | .tokens ts => " ".intercalate ("toks" :: ts.map Tok.toWire)
   | .badChar c => s!"badchar {c.toNat}"
   | .unit => "unit"
+
+/-! shapes: `N <id> <left> <right>` | `.` -/
+
+def BT.toWire : BT → String
+  | .nil => "."
+  | .node i l r => s!"N {i} {l.toWire} {r.toWire}"
+
+def BT.ofWire : Nat → List String → Option (BT × List String)
+  | 0, _ => none
+  | fuel + 1, toks =>
+    match toks with
+    | "." :: rest => some (.nil, rest)
+    | "N" :: i :: rest =>
+      match i.toNat? with
+      | some i =>
+        match BT.ofWire fuel rest with
+        | some (l, rest) =>
+          match BT.ofWire fuel rest with
+          | some (r, rest) => some (.node i l r, rest)
+          | none => none
+        | none => none
+      | none => none
+    | _ => none
+
+def optNat (o : Option Nat) : String := match o with | some n => toString n | none => "-"
+
+def cellsToWire (h : Heap) (ids : List Nat) : String :=
+  " ".intercalate (ids.map fun i => s!"{i}:{optNat (h i).left}:{optNat (h i).right}:{optNat (h i).parent}")
+
+def traceToWire (tr : List (Nat × Nat)) : String :=
+  " ".intercalate (tr.map fun p => s!"{p.1}:{p.2}")
 
 end Mathy
